@@ -196,13 +196,16 @@ func (c *Ctx) doAppend(fr *Frame, st *State, s, t Val, styp types.Type) Val {
 	one := isLit(tl, 1)
 	if classOf(et) == CStruct {
 		if !one {
-			panic(unsupported("append of several struct elements"))
+			// fresh store: copy prefix; then elements [sl, sl+tl) come from t
+			c.copyStructElemsOff(st, et, sd, fresh, bvInt(64, 0), sl, not(fits))
+			c.copyStructElemsOff(st, et, td, data, sl, tl, "true")
+		} else {
+			// element value
+			ev := c.loadStruct(st, et, c.elemRef(td, bvInt(64, 0)))
+			// fresh store: copy prefix (quantified), then write element
+			c.copyStructElems(st, et, sd, fresh, sl, not(fits))
+			c.storeStruct(st, et, c.elemRef(data, sl), ev)
 		}
-		// element value
-		ev := c.loadStruct(st, et, c.elemRef(td, bvInt(64, 0)))
-		// fresh store: copy prefix (quantified), then write element
-		c.copyStructElems(st, et, sd, fresh, sl, not(fits))
-		c.storeStruct(st, et, c.elemRef(data, sl), ev)
 		if !c.isFreshRef(sd) && worldStore("F$"+typeKey(et)+"$", "(elem "+sd+" 0)") {
 			st.dirty = or(st.dirty, fits)
 		}
@@ -235,6 +238,12 @@ func isLit(t string, v int64) bool { return t == bvInt(64, v) }
 
 // copyStructElems: under cond, elements [0,n) of the struct backing store dst equal those of src.
 func (c *Ctx) copyStructElems(st *State, et types.Type, src, dst, n, cond string) {
+	c.copyStructElemsOff(st, et, src, dst, bvInt(64, 0), n, cond)
+}
+
+// copyStructElemsOff: under cond, dst[off+i] = src[i] for i in [0,n); everything else keeps its value.
+func (c *Ctx) copyStructElemsOff(st *State, et types.Type, src, dst, off, n, cond string) {
+	end := c.define("cp.end", sortIdx, "(bvadd "+off+" "+n+")")
 	var walk func(t types.Type, wrapS, wrapD func(string) string)
 	walk = func(t types.Type, wrapS, wrapD func(string) string) {
 		s := under(t).(*types.Struct)
@@ -251,12 +260,13 @@ func (c *Ctx) copyStructElems(st *State, et types.Type, src, dst, n, cond string
 				name := l.heap + lf.suffix
 				cur := c.hget(st, name)
 				nh := c.declare("Hc."+name, c.heaps[name].sort)
-				se, de := wrapS(c.elemRef(src, "q.i")), wrapD(c.elemRef(dst, "q.i"))
-				c.assume(fmt.Sprintf("(forall ((q.i %s)) (! (=> (and %s (bvsle #x0000000000000000 q.i) (bvslt q.i %s)) (= (select %s %s) (select %s %s))) :pattern ((select %s %s))))",
-					sortIdx, cond, n, nh, de, cur, se, nh, de), "")
-				// frame: everything that is not an element of dst keeps its value
-				c.assume(fmt.Sprintf("(forall ((q.r Int)) (! (=> (not (and %s %s)) (= (select %s q.r) (select %s q.r))) :pattern ((select %s q.r))))",
-					cond, c.elemOfPred(rootOf(wrapD, "q.r"), dst, nil), nh, cur, nh), "")
+				se, de := wrapS(c.elemRef(src, "(bvsub q.i "+off+")")), wrapD(c.elemRef(dst, "q.i"))
+				c.assume(fmt.Sprintf("(forall ((q.i %s)) (! (=> (and %s (bvsle %s q.i) (bvslt q.i %s)) (= (select %s %s) (select %s %s))) :pattern ((select %s %s))))",
+					sortIdx, cond, off, end, nh, de, cur, se, nh, de), "")
+				// frame: everything that is not one of the written elements of dst keeps its value
+				root := rootOf(wrapD, "q.r")
+				c.assume(fmt.Sprintf("(forall ((q.r Int)) (! (=> (not (and %s %s (bvsle %s (elemI %s)) (bvslt (elemI %s) %s))) (= (select %s q.r) (select %s q.r))) :pattern ((select %s q.r))))",
+					cond, c.elemOfPred(root, dst, nil), off, root, root, end, nh, cur, nh), "")
 				st.heap[name] = nh
 			}
 		}
@@ -458,11 +468,14 @@ func (c *Ctx) callByContract(fr *Frame, st *State, spec *FuncSpec, key string, a
 	if _, pr := spec.Flags["panic_restores"]; pr {
 		clean = true // the callee proves (on_panic) that it restores what it changed before panicking
 	}
-	var pconds []string
+	var pconds, lconds []string
 	for _, cl := range spec.Clauses {
 		if cl.Kind == "panics_if" || cl.Kind == "lockfast" {
 			pc := c.evalBool(env, cl.E)
 			pconds = append(pconds, pc)
+			if cl.Kind == "lockfast" {
+				lconds = append(lconds, pc)
+			}
 			d := "true"
 			if clean || cl.Kind == "lockfast" {
 				d = st.dirty
@@ -479,17 +492,38 @@ func (c *Ctx) callByContract(fr *Frame, st *State, spec *FuncSpec, key string, a
 		d := "true"
 		if clean {
 			d = st.dirty
+		} else if len(lconds) > 0 {
+			// the callee proves: under a lockfast condition every one of its panics comes before any write
+			d = or(st.dirty, not(or(lconds...)))
 		}
 		c.panics = append(c.panics, &PanicExit{reach: and(st.reach, b), dirty: d, pos: c.P.pos(c.curPos), explicit: true, prefix: len(c.script), callee: key})
 	}
 	// havoc
 	modified := false
+	if _, nf := spec.Flags["noframe"]; nf {
+		nmod := 0
+		for _, cl := range spec.Clauses {
+			if cl.Kind == "modifies" {
+				nmod++
+			}
+		}
+		if nmod == 0 {
+			// no frame is declared and none is checked: the callee may change anything
+			c.havocAll(st)
+			modified = true
+			c.note("call to " + key + " (no declared frame): every heap variable is havoc'd at the call")
+		}
+	}
+	_, coarse := spec.Flags["noframe"]
+	if _, af := spec.Flags["assumedframe"]; af {
+		c.note("ASSUMED: the modifies clause of " + key + " is used at this call but is not checked against its body (flag assumedframe)")
+	}
 	for _, cl := range spec.Clauses {
 		if cl.Kind != "modifies" {
 			continue
 		}
 		for _, m := range cl.Mods {
-			if c.havocTarget(env, st, m) {
+			if c.havocTarget(env, st, m, coarse) {
 				modified = true
 			}
 		}
@@ -583,7 +617,7 @@ func bindResults(env *Env, spec *FuncSpec, res Val, results *types.Tuple) {
 }
 
 // havocTarget applies one modifies target to the state; reports whether non-ghost memory changed.
-func (c *Ctx) havocTarget(env *Env, st *State, m Expr) bool {
+func (c *Ctx) havocTarget(env *Env, st *State, m Expr, coarse bool) bool {
 	locs := c.modTargets(env, m)
 	real := false
 	for _, t := range locs {
@@ -593,7 +627,7 @@ func (c *Ctx) havocTarget(env *Env, st *State, m Expr) bool {
 		}
 		cur := c.hget(st, t.heap)
 		switch {
-		case t.all:
+		case t.all || coarse:
 			st.heap[t.heap] = c.declare("Hh."+t.heap, hi.sort)
 		case t.pred != nil:
 			nh := c.declare("Hh."+t.heap, hi.sort)
